@@ -182,3 +182,4 @@ def check(ctx):
     c11.r_print(ctx)
     c16.r_name_tables(ctx, 'R15.6')
     c16.r_number_tokens(ctx, 'R15.7')
+    c04.r_reviewed_grammar(ctx, 'R15.8', roots={'program', 'ty', 'expression'})
